@@ -2,7 +2,7 @@
    Statements only; every proof is [exact lemma]. *)
 From Coq Require Import NArith List Bool.
 From Coq.Strings Require Import Byte.
-From LOF Require Import Base.Bytes Model.Wire Model.Build Proofs.WireP Proofs.BuildP Proofs.NormP.
+From LOF Require Import Base.Bytes Model.Wire Model.Build Proofs.WireP Proofs.BuildP Proofs.NormP Model.BuildSw Proofs.HelloBaseP.
 Import ListNotations.
 Open Scope N_scope.
 
@@ -30,3 +30,9 @@ Print Assumptions C13_still_consistent.
 (* everything the API builds is such a value *)
 Theorem C13_applies_to_built_messages : forall m xid, wf_m m = true -> consistent (build_m xid m) = true.
 Proof. exact build_m_ok. Qed.
+
+(* ---- hello with any list of version-bitmap elements ([hello_tree xid es]: the elements and
+   their bitmaps are exported fields, so a controller can build any such list): each element is
+   padded to 64 bits and its length field counts header and bitmaps (fix D46) ---- *)
+Theorem C13_applies_to_hello : forall xid es, consistent (hello_tree xid es) = true.
+Proof. exact hello_consistent. Qed.
